@@ -115,8 +115,12 @@ def gen_case(rng, tier, index):
     while depth > 0:
         ops.append(["async_end"]); depth -= 1
     case = {"mode": "crash", "ops": ops, "img_seed": rng.getrandbits(32)}
-    if rng.random() < 0.15:
+    r = rng.random()
+    if r < 0.15:
         case["fail_write"] = {"nth": rng.randrange(1, 12), "errno": rng.choice([28, 5])}
+    elif r < 0.3:
+        # the error surfaces when the file is closed (flush of the buffered tail)
+        case["fail_close"] = {"nth": rng.randrange(1, 8), "errno": rng.choice([28, 5, 122])}
     return case
 
 # ---------------------------------------------------------------------------
@@ -155,9 +159,24 @@ class _RecFile:
     def __enter__(self):
         return self
     def __exit__(self, *a):
-        self._f.close()
+        self.close()
         return False
     def close(self):
+        r = self._rec
+        fc = getattr(r, "fail_close", None)
+        if fc and not self._f.closed and "w" in getattr(self._f, "mode", ""):
+            r.ncloses = getattr(r, "ncloses", 0) + 1
+            if r.ncloses == fc["nth"]:
+                # the flush of the user-space buffer fails (ENOSPC, EIO ...): what was not written out
+                # in whole buffer-sized blocks before never reaches the file
+                self._f.flush()
+                size = os.fstat(self._f.fileno()).st_size
+                keep = (size // 8192) * 8192
+                os.ftruncate(self._f.fileno(), keep)
+                # (the file may have been renamed while it was open)
+                r.trace.append(("truncate", getattr(r, "alias", {}).get(self._name, self._name), keep))
+                self._f.close()
+                raise OSError(fc["errno"], os.strerror(fc["errno"]) + " [injected]")
         self._f.close()
     def __getattr__(self, k):
         return getattr(self._f, k)
@@ -172,12 +191,14 @@ def _install_recorder(rec):
         f = real_open(name, mode, *a, **kw)
         if "w" in mode:
             rec.trace.append(("create", rel(name)))
+            rec.__dict__.setdefault("alias", {}).pop(rel(name), None)
         if "b" in mode:
             return _RecFile(rec, f, rel(name))
         return f
     def r_replace(src, dst):
         os.replace(src, dst)
         rec.trace.append(("rename", rel(src), rel(dst)))
+        rec.__dict__.setdefault("alias", {})[rel(src)] = rel(dst)
     class OsProxy:
         def __getattr__(self, k):
             return getattr(os, k)
@@ -232,6 +253,7 @@ def _record_history(root, case):
     from bob.errors import ParseError
     rec = _Rec(root)
     rec.fail_write = case.get("fail_write")
+    rec.fail_close = case.get("fail_close")
     _install_recorder(rec)
     cwd = os.getcwd()
     os.chdir(root)
@@ -277,6 +299,11 @@ class _Disk:
             self.files[ev[1]] = {"data": bytearray(), "synced": 0}
         elif k == "write":
             self.files[ev[1]]["data"] += ev[2]
+        elif k == "truncate":
+            f = self.files.get(ev[1])
+            if f is not None:
+                del f["data"][ev[2]:]
+                f["synced"] = min(f["synced"], ev[2])
         elif k == "fsync":
             f = self.files.get(ev[1])
             if f is not None:
@@ -545,7 +572,7 @@ def run_case(case):
         viol, log, nontriv = _run_crash(case, stats)
         stats.inc("cases_crash")
         sample = {"mode": "crash", "ops": case["ops"][:10], "n_ops": len(case["ops"]),
-                  "fail_write": case.get("fail_write"), "crash_points": len(log)}
+                  "fail_write": case.get("fail_write"), "fail_close": case.get("fail_close"), "crash_points": len(log)}
     return {"violation": viol, "digest": common.digest_of(log), "stats": dict(stats), "nontrivial": nontriv,
             "sim_time": float(len(log)), "sample": sample}
 
